@@ -169,6 +169,8 @@ def gen_program(tape, nreaders, lengths, bounds, label, ncalls, allow_lock):
             call["o"], call["n"] = gen_offsets(tape, L, B, f"{label}.c{c}")
             if kind == "read" and allow_lock:
                 call["lock"] = tape.chance(2, 3, f"{label}.c{c}.lock")
+            if kind == "clone_read":
+                call["how"] = tape.weighted([3, 1, 1, 1], f"{label}.c{c}.how")
             if kind == "dask_read":
                 call["chunks"] = tape.chance(1, 3, f"{label}.c{c}.chunks")
         elif kind == "dask_multi":
@@ -233,7 +235,18 @@ class Client:
                     self._reach(call, model)
                 elif kind == "clone_read":
                     o, n = call["o"], call["n"]
-                    clone = cloudpickle.loads(cloudpickle.dumps(reader))
+                    how = call.get("how", 0)
+                    if how == 1:
+                        import pickle
+                        clone = pickle.loads(pickle.dumps(reader))
+                    elif how == 2:
+                        import copy
+                        clone = copy.copy(reader)
+                    elif how == 3:
+                        import copy
+                        clone = copy.deepcopy(reader)
+                    else:
+                        clone = cloudpickle.loads(cloudpickle.dumps(reader))
                     z = clone.read(o, n)
                     check_signal(ctx, who, model, clone, o, n, z, "clone_read")
                     self.rec(ci, kind, ri, o, n, "ok", core.hbytes(np.asarray(z.data).tobytes()))
